@@ -1,11 +1,11 @@
 package interp
 
 import (
-	"reflect"
 	"fmt"
-	"os"
 	"go/token"
 	"go/types"
+	"os"
+	"reflect"
 	"runtime"
 	"strings"
 
@@ -925,7 +925,7 @@ func (e *Engine) tryIfConvert(fr *frame, cond *sym.Term) bool {
 	t, f := b.Succs[0], b.Succs[1]
 	var join *ssa.BasicBlock
 	var arms []*ssa.BasicBlock // blocks to execute speculatively
-	predT, predF := t, f         // predecessors of join for the true / false outcome
+	predT, predF := t, f       // predecessors of join for the true / false outcome
 	if jt, ok := pureArm(t, b); ok && jt == f {
 		join, arms, predT, predF = f, []*ssa.BasicBlock{t}, t, b
 	} else if jf, ok := pureArm(f, b); ok && jf == t {
